@@ -279,7 +279,7 @@ def run_tlc(module, cfg=None, workers=None, env=None, coverage=False, simulate=N
   """
   workers = workers or min(16, os.cpu_count() or 1)
   meta = tempfile.mkdtemp(prefix="tlcmeta_", dir=scratch_root())
-  cmd = ["java", "-XX:+UseParallelGC", "-Xss16m"]
+  cmd = ["java", "-XX:+UseSerialGC" if workers == 1 else "-XX:+UseParallelGC", "-Xss16m"]
   if dfs:
     cmd.append("-Dtlc2.tool.queue.IStateQueue=StateDeque")
   cmd += ["-cp", TLA_CP, "tlc2.TLC", "-metadir", meta, "-noGenerateSpecTE", "-workers", str(workers)]
@@ -350,6 +350,9 @@ DRIVER_ENV = {
     "TF_CPP_MIN_LOG_LEVEL": "3",
     "CUDA_VISIBLE_DEVICES": "",
     "QKERAS_VERIF": "1",
+    "TF_NUM_INTRAOP_THREADS": "1",
+    "TF_NUM_INTEROP_THREADS": "1",
+    "OMP_NUM_THREADS": "1",
 }
 
 
@@ -559,3 +562,37 @@ def judge_shards(chk, spec, cfg, shards, workers_each=1, label=None, count_event
       chk.add_trace_run(label or spec, res, sh["n"], sh.get("traces"))
     outs.append(res.prints())
   return outs
+
+
+def sharded_conformance(chk, driver, cfgs, trace_spec, tier, seed, tag, nshards=14, extra_args=()):
+  """Run <driver> on nshards slices of cfgs, judge each slice's trace with <trace_spec>.
+
+  Yields (cfg, event, clauses, shard_events) for every REJECT and ("error", cfg, errrec) for driver-side errors via
+  the returned list of tuples: [("reject", cfg, ev, clauses), ("error", cfg, err)]; also returns per-shard events
+  for accounting.
+  """
+  root = scratch_root()
+  cpath = os.path.join(root, tag + "_cfgs.json")
+  json.dump(cfgs, open(cpath, "w"))
+  prefix = os.path.join(root, tag)
+  outs = run_drivers_parallel([(driver, [cpath, prefix, tier, seed, s, nshards] + list(extra_args))
+                               for s in range(nshards)])
+  shards = []
+  for s in range(nshards):
+    n = json.loads(outs[s].strip().splitlines()[-1])["events"]
+    shards.append({"env": {"TRACE_FILE": "%s.%d.ndjson" % (prefix, s), "CFG_FILE": "%s.%d.cfg.json" % (prefix, s)},
+                   "n": n})
+  prints = judge_shards(chk, trace_spec, trace_spec, shards)
+  results = []
+  all_events = []
+  for s in range(nshards):
+    scfg = json.load(open("%s.%d.cfg.json" % (prefix, s)))
+    evs = read_ndjson("%s.%d.ndjson" % (prefix, s)) if shards[s]["n"] else []
+    all_events.append((scfg, evs))
+    for e in json.load(open("%s.%d.err.json" % (prefix, s))):
+      results.append(("error", scfg[e["c"] - 1], e))
+    for p in prints[s]:
+      if p and p[0] == "REJECT":
+        ev = evs[p[1] - 1]
+        results.append(("reject", scfg[ev["c"] - 1], ev, p[2]))
+  return results, all_events
